@@ -64,40 +64,41 @@ Proof. exact c19_programs_bess_sides. Qed.
 Print Assumptions C19_programs_bess_sides.
 
 (* UP4 (configured slice id < 16, default TC < 4): one 201, one MODIFY of cell 4*slice+tc of the
-   slice/TC meter with the larger of the two converted rates and the burst of that side.
-   Full statement (all 64-bit bursts) refuted below; this is the part under the guard burst < 2^63. *)
-Theorem C19_programs_up4_partial : forall (meth : string) (d : doc) (slice_id tc : N),
+   slice/TC meter with the larger of the two converted rates and the burst of that side, for ALL
+   64-bit bursts: up4_meter_spec saturates the burst at 2^63-1, the largest value P4Runtime's int64
+   pburst can carry (since fix 6ea8262; before it a burst >= 2^63 was written as a negative number) *)
+Theorem C19_programs_up4 : forall (meth : string) (d : doc) (slice_id tc : N),
   meth = "PUT"%string \/ meth = "POST"%string -> slice_id < 16 -> tc < 4 ->
   rate_ok (d_ul d) (d_unit d) -> rate_ok (d_dl d) (d_unit d) ->
-  d_ulb d < 2 ^ 63 -> d_dlb d < 2 ^ 63 ->
   serve (Up4 slice_id tc) meth (Decoded d) =
   Result [201]
          (up4_meter_spec slice_id tc (d_ul d * unit_of (d_unit d)) (d_dl d * unit_of (d_unit d))
                          (d_ulb d) (d_dlb d))
          (Some (stored_spec d (d_ul d * unit_of (d_unit d)) (d_dl d * unit_of (d_unit d)))).
 Proof. exact c19_programs_up4. Qed.
-Print Assumptions C19_programs_up4_partial.
+Print Assumptions C19_programs_up4.
 
-(* without the guard the statement is false: a posted burst >= 2^63 reaches MeterConfig.pburst
-   (an int64) as a negative number (witness: POST, 1 Mbps both ways, downlink burst 2^63) *)
-Theorem C19_programs_up4_refuted :
-  exists (meth : string) (d : doc) (slice_id tc : N),
-    put_post meth /\ wf_doc d /\ slice_id < 16 /\ tc < 4 /\
-    rate_ok (d_ul d) (d_unit d) /\ rate_ok (d_dl d) (d_unit d) /\
-    r_writes (serve (Up4 slice_id tc) meth (Decoded d)) <>
-    up4_meter_spec slice_id tc (d_ul d * unit_of (d_unit d)) (d_dl d * unit_of (d_unit d))
-                   (d_ulb d) (d_dlb d).
-Proof. exact c19_programs_up4_refuted. Qed.
-Print Assumptions C19_programs_up4_refuted.
+(* for every document: pburst is never negative, equals the posted burst of the chosen side whenever
+   that is below 2^63, and is 2^63-1 otherwise *)
+Theorem C19_up4_burst_carried : forall (meth : string) (d : doc) (slice_id tc : N),
+  meth = "PUT"%string \/ meth = "POST"%string -> slice_id < 16 -> tc < 4 ->
+  exists m, r_writes (serve (Up4 slice_id tc) meth (Decoded d)) = [WUp4 m] /\
+    (0 <= m_pburst m < 2 ^ 63)%Z /\
+    let b := if calculate_bit_rates (d_dl d) (d_unit d) <? calculate_bit_rates (d_ul d) (d_unit d)
+             then d_ulb d else d_dlb d in
+    (b < 2 ^ 63 -> m_pburst m = Z.of_N b) /\ (2 ^ 63 <= b -> m_pburst m = (2 ^ 63 - 1)%Z).
+Proof. exact c19_up4_burst_carried. Qed.
+Print Assumptions C19_up4_burst_carried.
 
-(* what UP4 is told for every document, exactly (int64_of_uint64 = two's-complement reading) *)
+(* what UP4 is told for every document, exactly (int64_of_uint64 = two's-complement reading of the rate) *)
 Theorem C19_up4_exact : forall (meth : string) (d : doc) (slice_id tc : N),
   meth = "PUT"%string \/ meth = "POST"%string -> slice_id < 16 -> tc < 4 ->
   let cu := calculate_bit_rates (d_ul d) (d_unit d) in
   let cd := calculate_bit_rates (d_dl d) (d_unit d) in
   r_writes (serve (Up4 slice_id tc) meth (Decoded d)) =
   [ WUp4 (MeterWrite 2 336833095 (Z.of_N (4 * slice_id + tc)) 0 0
-            (int64_of_uint64 (N.max cu cd)) (int64_of_uint64 (if cd <? cu then d_ulb d else d_dlb d))) ].
+            (int64_of_uint64 (N.max cu cd))
+            (Z.of_N (N.min (if cd <? cu then d_ulb d else d_dlb d) (2 ^ 63 - 1)))) ].
 Proof. exact c19_up4_exact. Qed.
 Print Assumptions C19_up4_exact.
 
@@ -132,6 +133,41 @@ Theorem C19_single_status : forall (dp : datapath) (meth : string) (b : body),
 Proof. exact c19_single_status. Qed.
 Print Assumptions C19_single_status.
 
+(* ---- histories: one handler + upf serving any sequence of requests; state = upf.sliceInfo *)
+(* what a request is answered, sends to the datapath and stores does not depend on the state it
+   finds (any previously posted slice, or none): it is serve of that request alone, so every theorem
+   above holds for every request of every history *)
+Theorem C19_history_independent : forall (st st' : state) (dp : datapath) (meth : string) (b : body),
+  fst (serve_st st dp meth b) = fst (serve_st st' dp meth b) /\
+  fst (serve_st st dp meth b) = serve dp meth b.
+Proof. exact c19_history_independent. Qed.
+Print Assumptions C19_history_independent.
+
+Theorem C19_sequence : forall (st : state) (dp : datapath) (reqs : list request),
+  fst (run st dp reqs) = map (fun q => serve dp (q_meth q) (q_body q)) reqs.
+Proof. exact run_results. Qed.
+Print Assumptions C19_sequence.
+
+(* a refused request (unreadable / malformed body, other method) at the end of any history leaves the
+   cached slice info and the meter (the writes of the last request that sent any) as they were *)
+Theorem C19_refused_keeps_meter : forall (st : state) (dp : datapath) (reqs : list request) (q : request)
+    (m : list write),
+  q_body q = Unreadable \/ q_body q = Malformed \/ (q_meth q <> "PUT"%string /\ q_meth q <> "POST"%string) ->
+  snd (run st dp (reqs ++ [q])) = snd (run st dp reqs) /\
+  meter_after m (fst (run st dp (reqs ++ [q]))) = meter_after m (fst (run st dp reqs)).
+Proof. exact c19_refused_keeps. Qed.
+Print Assumptions C19_refused_keeps_meter.
+
+(* an accepted request at the end of any history: the cache and the meter are what IT posted *)
+Theorem C19_accepted_overrides : forall (st : state) (dp : datapath) (reqs : list request) (meth : string)
+    (d : doc) (m : list write),
+  meth = "PUT"%string \/ meth = "POST"%string ->
+  snd (run st dp (reqs ++ [Req meth (Decoded d)])) = Some (slice_info_of d) /\
+  (add_slice_info dp (slice_info_of d) <> [] ->
+   meter_after m (fst (run st dp (reqs ++ [Req meth (Decoded d)]))) = add_slice_info dp (slice_info_of d)).
+Proof. exact c19_accepted_overrides. Qed.
+Print Assumptions C19_accepted_overrides.
+
 (* ---------------------------------------------------------------- non-vacuity *)
 Definition ex_doc (ul dl : N) (u : string) (ulb dlb : N) : doc :=
   Doc "slice1" ul dl u ulb dlb [("internet", "pool1")].
@@ -156,6 +192,11 @@ Example C19_up4_example :
     (Some (SliceInfo "slice1" 20000 30000 111 222 [("pool1", "internet")])).
 Proof. vm_compute. reflexivity. Qed.
 
+Example C19_up4_clamp_example :
+  r_writes (serve (Up4 0 3) "POST" (Decoded (ex_doc 1 1 "Mbps" 1000 (2 ^ 64 - 1)))) =
+  [ WUp4 (MeterWrite 2 336833095 3 0 0 1000000 9223372036854775807) ].
+Proof. vm_compute. reflexivity. Qed.
+
 (* outside rate_ok: 0 becomes 2^63-1; just above the limit becomes 2^63-1; far above it the
    truncated product can land positive: 18446744073710 Mbps is programmed as 448384 bit/s *)
 Example C19_outside_examples :
@@ -171,3 +212,16 @@ Example C19_error_examples :
   serve Bess "GET" (Decoded (ex_doc 1 1 "" 1 1)) = Result [405] [] None /\
   serve Bess "put" (Decoded (ex_doc 1 1 "" 1 1)) = Result [405] [] None.
 Proof. vm_compute. repeat split. Qed.
+
+(* a history: 40 Mbps, a malformed body, a GET, then the same rate spelled 40000 Kbps with new bursts:
+   the last request is programmed in full although name and converted rates equal the cached ones *)
+Example C19_history_example :
+  let d1 := Doc "s" 40 40 "Mbps" 6000 7000 [] in
+  let d2 := Doc "s" 40000 40000 "Kbps" 120000 140000 [] in
+  run None Bess [Req "PUT" (Decoded d1); Req "POST" Malformed; Req "GET" (Decoded d2); Req "PUT" (Decoded d2)] =
+  ([ Result [201] (bess_meter_spec 40000000 40000000 6000 7000) (Some (SliceInfo "s" 40000000 40000000 6000 7000 []));
+     Result [400] [] None; Result [405] [] None;
+     Result [201] (bess_meter_spec 40000000 40000000 120000 140000)
+            (Some (SliceInfo "s" 40000000 40000000 120000 140000 [])) ],
+   Some (SliceInfo "s" 40000000 40000000 120000 140000 [])).
+Proof. vm_compute. reflexivity. Qed.
